@@ -222,6 +222,19 @@ def run(ctx):
         for r in range(reps):
             args.append((m, ctx.seed * 6007 + mi * 131 + r, per, ctx.tier, r == 0))
     core.run_shards(ctx, shard, args)
+    if ctx.tier == 'thorough':
+        from .. import fuzz
+        rnd = random.Random(ctx.seed)
+        names14 = ['-lz4-', '-lz5-', '-lzs-', '-lh0-', '-lh1-', '-lh4-', '-lh5-', '-lh6-', '-lh7-', '-lhx-', '-lk7-', '-pm0-', '-pm1-', '-pm2-']
+        seeds = []
+        for mi, m in enumerate(names14):
+            for k in range(12):
+                s_, p_, _ = streams.valid_stream(rnd, m, rnd.choice([5, 60, 400]))
+                seeds.append(bytes([mi + (128 if k % 2 else 0), rnd.randrange(256)]) + s_)
+            if m in lhnew.METHODS:
+                seeds += [bytes([mi, 3]) + hostile_lhnew(rnd, m) for _ in range(6)]
+        seeds += [bytes([13, 2]) + hostile_pm2(rnd) for _ in range(20)]
+        fuzz.run_fuzzer(ctx, b, 'decode', 'fz_decode.c', seeds, runs=60000, workers=16, key_prefix='C09', max_len=8192)
     if ctx.cov.get('hook_trees_validated', 0) == 0 or ctx.cov.get('hook_indexes_checked', 0) == 0 or ctx.cov.get('hook_rows_checked', 0) == 0:
         raise core.HarnessFailure('hooks H1-H3 were never reached: is /repo built with -DLHASA_VERIF and are the hooks present?')
     ctx.cov['rule'] = ('per method (14 names): constant fills, random bytes, valid streams with bit flips inside table regions reported by '
